@@ -17,6 +17,15 @@ NAMES = [
 BOUNDED = {"expr-nonneg"}
 #: extra vectors for the walks: {free label: value}; for "expr-forward" aux.c = 1 makes `1/$aux.b` raise
 SPECIAL_VECTORS = {"expr-forward": [{"aux.c": 1.0}, {"aux.c": 2.0}]}
+#: a megacomplex whose matrix does not depend on the parameters (baseline: a column of ones) combined with a
+#: `megacomplex_scale` that is not a power of two (MatrixProvider.calculate_dataset_matrix scales the megacomplex output
+#: IN PLACE: a matrix object that outlives the evaluation would be scaled once more per evaluation), next to a dataset
+#: with the same model axis that does not scale its baseline (seeded change C10-8: the baseline matrix came from a cache)
+NAMES.append("baseline-mcscale")
+#: schemes for the history-length stream of c10.py (`history_stream`): {name: (min, max) number of evaluations of the walk};
+#: scaled megacomplexes / datasets — state that survives an evaluation is multiplied once per evaluation, so it shows on
+#: rounding level after one evaluation and leaves the double range after log(1e-324)/log(scale) evaluations
+HISTORY_NAMES = {"baseline-mcscale": (330, 420), "linked-two": (40, 60), "unlinked-two-pen": (40, 60)}
 
 
 def _time_axis(n=24):
@@ -404,6 +413,34 @@ aux:
   - ['b', 0.6, {expr: '$rates.1 * 0.4 + 0.04'}]
 """
         data = {"d1": _decay_data(t, g3, [1.5, 0.3], 17)}
+    elif name == "baseline-mcscale":
+        model = """
+dataset_groups:
+  default: {link_clp: false}
+megacomplex:
+  m1: {type: decay-parallel, compartments: [s1, s2], rates: [rates.1, rates.2]}
+  b1: {type: baseline, dimension: time}
+irf:
+  irf1: {type: gaussian, center: irf.center, width: irf.width}
+dataset:
+  d1: {megacomplex: [m1, b1], megacomplex_scale: [mcs.1, mcs.2], irf: irf1}
+  d2: {megacomplex: [m1, b1], irf: irf1}
+"""
+        pars = """
+rates:
+  - ['1', 0.9]
+  - ['2', 0.15]
+irf:
+  - ['center', 0.05]
+  - ['width', 0.12, {vary: false}]
+mcs:
+  - ['1', 1.0, {vary: false}]
+  - ['2', 0.1, {vary: false}]
+"""
+        tt = _time_axis(20)
+        data = {"d1": _decay_data(tt, g4, [1.0, 0.2], 18), "d2": _decay_data(tt, g3, [1.0, 0.2], 19)}
+        data["d1"]["data"] = data["d1"].data + 0.25          # the offsets the baselines fit
+        data["d2"]["data"] = data["d2"].data + 0.1
     else:
         raise KeyError(name)
     m = load_model(model, format_name="yml_str")
